@@ -424,8 +424,90 @@ static void stage_config(Case &c)
                    MODEL_NAME[model], alg, scaling, fullrange, k.ch, k.own[0], k.own[1], k.own[2], k.own[3], npoints, lines, k.writes));
 }
 
+// ------------------------------------------------------------------------------------------------------------
+// stage arp: with auto-arpeggio on and more same-instrument notes than chip channels, notes of a MIDI channel whose volume
+// (or expression) is zero share chip channels with audible notes of another MIDI channel. Whenever the arpeggio keys a chip
+// channel on with the pitch of a silenced note, the carriers in force at that key-on must be fully attenuated.
+// ------------------------------------------------------------------------------------------------------------
+static void stage_arp(Case &c)
+{
+    Rng &rng = c.rng;
+    Rig r;
+    if(!r.open(c, rng.chance(0.5) ? 0 : 2)) return;
+    int model = 1 + (int)rng.below(5), alg = (int)rng.below(8);
+    uint8_t own[4]; gen_tl(rng, alg, own);
+    if(!put_ins(c, r, false, 0, alg, (int)rng.below(8), own)) return;
+    API("opn2_setVolumeRangeModel", opn2_setVolumeRangeModel(r.dev, model));
+    API("opn2_setScaleModulators", opn2_setScaleModulators(r.dev, 0));
+    API("opn2_setAutoArpeggio", opn2_setAutoArpeggio(r.dev, 1));
+    const int chX = 0, chY = 1;
+    bool by_expression = rng.chance(0.4);
+    API("opn2_rt_patchChange", opn2_rt_patchChange(r.dev, chX, 0)); API("opn2_rt_patchChange", opn2_rt_patchChange(r.dev, chY, 0));
+    API("opn2_rt_controllerChange", opn2_rt_controllerChange(r.dev, chX, by_expression ? 11 : 7, 0));
+    API("opn2_rt_controllerChange", opn2_rt_controllerChange(r.dev, chY, 7, (uint8_t)rng.range(90, 127)));
+    // audible notes first (keys 72..), then the silenced ones (keys 40..) within the 70 ms sharing window
+    // one group fills the chip, the other joins within the 70 ms sharing window (either order); some notes leave again mid-turn
+    const bool silenced_first = rng.chance(0.5);
+    int nfirst = rng.range(5, 7), nsecond = rng.range(1, 4);
+    int ny = silenced_first ? nsecond : nfirst, nx = silenced_first ? nfirst : nsecond;
+    std::vector<short> pcm(2 * 1024);
+    auto strike = [&](bool silenced, int i) { int rc = 0; API("opn2_rt_noteOn", rc = opn2_rt_noteOn(r.dev, silenced ? chX : chY, (uint8_t)(silenced ? 40 + i * 2 : 72 + i * 2), (uint8_t)rng.range(60, 127))); (void)rc; };
+    for(int i = 0; i < nfirst; i++) strike(silenced_first, i);
+    int gap = (int)rng.pick((const int[]){0, 0, 64, 200, 400});
+    if(gap) API("opn2_generate", opn2_generate(r.dev, gap * 2, pcm.data()));
+    r.tap.log.clear();
+    for(int i = 0; i < nsecond; i++)
+    {
+        strike(!silenced_first, i);
+        if(rng.chance(0.5)) { int n = (int)rng.pick((const int[]){32, 100, 300, 512}); API("opn2_generate", opn2_generate(r.dev, n * 2, pcm.data())); }
+        if(rng.chance(0.2)) { bool sil = rng.chance(0.5); API("opn2_rt_noteOff", opn2_rt_noteOff(r.dev, sil ? chX : chY, (uint8_t)((sil ? 40 : 72) + 2 * rng.below(3)))); }
+    }
+    int periods = rng.range(10, 40), block = (int)rng.pick((const int[]){128, 512, 700, 1024});
+    for(int p = 0; p < periods; p++) API("opn2_generate", opn2_generate(r.dev, block * 2, pcm.data()));
+    // replay the register log: per chip channel TL of the four slots and the committed frequency; judge every key-on
+    struct CS { uint8_t tl[4]; unsigned a4l, a4, a0; bool have; } cs[6];
+    memset(cs, 0, sizeof(cs));
+    long keyons = 0, silenced_keyons = 0; int reported = 0;
+    for(size_t i = 0; i < r.tap.log.size(); i++)
+    {
+        const RegWrite &w = r.tap.log[i];
+        if(w.port == 0xFF || w.chip != 0) continue;
+        if(w.port == 0 && w.reg == 0x28)
+        {
+            static const int map[8] = {0, 1, 2, -1, 3, 4, 5, -1};
+            int cc = map[w.val & 7];
+            if(cc < 0 || !(w.val & 0xF0) || !cs[cc].have) continue;
+            keyons++;
+            unsigned block_ = (cs[cc].a4 >> 3) & 7, fnum = ((cs[cc].a4 & 7) << 8) | cs[cc].a0;
+            double hz = (double)fnum * 7670454.0 / (144.0 * ldexp(1.0, 21 - (int)block_));
+            double key = 69.0 + 12.0 * log2(hz / 440.0);
+            if(key < 60.0)
+            {   // one of the silenced notes (keys 40..49) is being keyed on
+                silenced_keyons++;
+                for(int sl = 0; sl < 4; sl++) if(is_carrier_slot(alg, sl) && cs[cc].tl[sl] != 127 && reported++ < 3)
+                    c.violation(vfmt("oracle:C11:zero-control-does-not-silence-carrier:%s:arpeggio:model-%s", by_expression ? "expression" : "volume", MODEL_NAME[model]),
+                                vfmt("chip channel %d keyed on with the pitch of key %.1f (MIDI channel %d, %s = 0) while carrier slot %d (operator %d, alg %d) has TL=%u, expected 127 [%d audible + %d silenced notes, arpeggio on, register write #%zu]",
+                                     cc, key, chX, by_expression ? "CC11" : "CC7", sl, slot_op(sl), alg, cs[cc].tl[sl], ny, nx, i));
+            }
+            continue;
+        }
+        if(w.port > 1) continue;
+        unsigned low = w.reg & 3; if(low == 3) continue;
+        int ci = (w.port ? 3 : 0) + (int)low;
+        if(w.reg >= 0x40 && w.reg < 0x50) cs[ci].tl[(w.reg >> 2) & 3] = (uint8_t)(w.val & 0x7F);
+        else if(w.reg >= 0xA4 && w.reg < 0xA8) cs[ci].a4l = w.val;
+        else if(w.reg >= 0xA0 && w.reg < 0xA4) { cs[ci].a4 = cs[ci].a4l; cs[ci].a0 = w.val; cs[ci].have = true; }
+    }
+    count("arp_keyons_decoded", keyons); count("arp_keyons_of_silenced_notes", silenced_keyons);
+    c.nontrivial = silenced_keyons > 0;
+    cover(vfmt("arp|model%d|alg%d|%s|x%d|%s", model, alg, by_expression ? "cc11" : "cc7", nx, silenced_first ? "silenced-first" : "audible-first"));
+    c.sig = vfmt("arp|%d|%d", model, alg);
+    c.sample(vfmt("{\"stage\":\"arp\",\"model\":\"%s\",\"alg\":%d,\"audible_notes\":%d,\"silenced_notes\":%d,\"keyons\":%ld,\"keyons_of_silenced_notes\":%ld}", MODEL_NAME[model], alg, ny, nx, keyons, silenced_keyons));
+}
+
 static void run_case(Case &c)
 {
+    if(g_w.stage == "arp") { stage_arp(c); return; }
     if(g_w.stage == "config") stage_config(c);
     else stage_cube(c);
 }
